@@ -91,7 +91,7 @@ func init() {
 		Level: "fault_enumeration",
 		Rule: "chains `v.try.s1…sk` and the unwrapped `v.s1…sk` (k ≤ 3 complete in quick, k ≤ 4 complete in thorough) over two families — user objects with marker-printing methods (method, args, kwargs, trailing literal, operator method, literal call, variable call, the value's own _missing) and ints with built-in/operator/literal steps — with a failing step of every error source (the 11 built-in kinds raised by K.new, host ZeroDivisionErr/TypeErr/NoPropErr/NameErr/ValueErr, re-raised wrapper, `_`) injected at every position; plus non-callable properties, array receivers with multi-parameter literals and nil values. " +
 			"Oracle: unwrapped outcome U (value or kind+message, stdout markers) vs. the wrapped run's val, err, A, val?, err?, or, catch (matching / non-matching), ignore, abandon, err.type, err.msg and its stdout markers. distinct = distinct (family, step kinds, failure source, position) tuples; non-trivial = every case (the unwrapped run decides the expectation)" +
-			" Added: receivers and step results that are themselves Either values.",
+			" Added: receivers and step results that are themselves Either values. Sixth round: the same steps applied to `[v.try]` through a list chain.",
 		Assumptions: []string{
 			"steps are drawn from names the Either does not define itself (p, S, A, keys, B … are answered by the Either, per the documents)",
 			"val? is `val != nil`: chains whose successful value is nil are not judged on val?",
